@@ -69,6 +69,16 @@ def gen_session(rng):
              "(define-syntax swap-zz (syntax-rules () ((swap-zz a b) (list b a))))", "(swap-zz 1 2)"]
     for _ in range(rng.randrange(1, 5)):
         forms.insert(rng.randrange(len(forms) + 1), rng.choice(extra))
+    if rng.random() < 0.35:
+        # a definition (of a variable, a procedure or a macro) DIRECTLY FOLLOWED by a failing form - in some line splittings they
+        # share a submission - and used at the end of the session: what was defined before the failure stays defined
+        d, use = rng.choice([("(define-syntax twice-zz (syntax-rules () ((twice-zz e) (* 2 e))))", "(twice-zz 21)"),
+                             ("(define kept-zz 41)", "(+ kept-zz 1)"), ("(define (kept-f q) (* q q))", "(kept-f 7)"),
+                             ("(define-syntax swap-zz (syntax-rules () ((swap-zz a b) (list b a))))", "(swap-zz 1 2)")])
+        bad = rng.choice(["(car '())", "(undefined-zz)", "(if)", ")", "(vector-ref (vector) 0)", "(lambda)"])
+        at = rng.randrange(len(forms) + 1)
+        forms[at:at] = [d, bad]
+        forms.append(use)
     return forms
 
 
